@@ -363,7 +363,13 @@ class SendCompressed(_Send):
         d = rfc6455.decode_one(w)
         if 'compress' in a and a.compress is not None:
             log = ip.st.ghost.get('deflate_log', [])[len(old.ghost.get('deflate_log', [])):]
-            out = [('payload-deflated-exactly-once', BoolVal(len(log) == 1))]
+            # C03 / C06 do not oblige the client to compress: a frame that goes out uncompressed (RSV1 clear, the caller's
+            # bytes) is fine PROVIDED the shared deflate context was not advanced for it - a message the deflater has seen
+            # but the peer never inflates desynchronises every later message under context takeover
+            out = [('deflate-context-advanced-at-most-once-and-only-for-what-is-sent', BoolVal(len(log) <= 1))]
+            if len(log) == 0:
+                data0 = old.bytes(a.data) if isinstance(a.data, MRef) else a.data
+                out += build_post(ip, d, w.n, iv(a.opcode), 1, 0, 0, 0, True, data0, None)
             if len(log) == 1:
                 zkey, src, deflated, locked = log[0]
                 out.append(('deflater-input-is-callers-data', beq(src, ip.bytes_of(a.data))))
